@@ -34,7 +34,7 @@ var stateMachineSpec = map[string]map[string]string{
 var successorFuncs = map[string]bool{"ProcessPass": true, "ProcessMiss": true, "ProcessHit": true, "ProcessFetch": true, "ProcessError": true, "ProcessDeliver": true, "ProcessLog": true, "restart": true}
 
 func runC06(c *core.Ctx) {
-	c.Explanation = "Structural necessary conditions of the request state machine, decided on SSA of interpreter: (sm.succ) for every lifecycle scope and every State constant, the successor reached when the scope's subroutine returns that action — computed by a path walk that binds the returned state to the constant and resolves phis and `state == K` tests along the path (so the NONE→default remapping is followed) — equals the Fastly table transcribed from the property statement; disallowed actions reach no successor; (sm.one) on every path of every non-terminal Process<Scope> to a return whose error may be nil, exactly one successor is called (count dataflow over {0,1,2+}); one named exception (purge requests stop after vcl_recv); together with the acyclic successor graph this puts vcl_log last and exactly once on every successful request; (sm.restart) the re-entry restart→ProcessRecv is dominated by a comparison of ctx.Restarts with limitations.MaxVarnishRestarts, whose value is 3; (sm.cache) the hit/miss branch is selected by the nil-ness of cache.Get(request hash), sets ctx.State HIT/MISS and process.Cached, ProcessDeliver copies ctx.State into X-Cache, and the cross-request stores (cache, rateCounters, penaltyBoxes) are assigned only in New; (sm.report) every field of the process report is read by Finalize and the reported `cached` comes from Process.Cached."
+	c.Explanation = "Structural necessary conditions of the request state machine, decided on SSA of interpreter: (sm.succ) for every lifecycle scope and every State constant, the successor reached when the scope's subroutine returns that action — computed by a path walk that binds the returned state to the constant and resolves phis and `state == K` tests along the path (so the NONE→default remapping is followed) — equals the Fastly table transcribed from the property statement; disallowed actions reach no successor; (sm.one) on every path of every non-terminal Process<Scope> to a return whose error may be nil, exactly one successor is called (count dataflow over {0,1,2+}); one named exception (purge requests stop after vcl_recv); together with the acyclic successor graph this puts vcl_log last and exactly once on every successful request; (sm.restart) the re-entry restart→ProcessRecv is dominated by a comparison of ctx.Restarts with limitations.MaxVarnishRestarts, whose value is 3; (sm.cache) the hit/miss branch is selected by the nil-ness of cache.Get(request hash), sets ctx.State HIT/MISS and process.Cached, ProcessDeliver copies ctx.State into X-Cache, the cross-request stores (cache, rateCounters, penaltyBoxes) are assigned only in New, and the expiry of a stored object is rewritten (CacheItem.Update) only under a dominating test that the new TTL is positive; (sm.report) every field of the process report is read by Finalize and the reported `cached` comes from Process.Cached."
 	c.NotCovered = []string{"cache behaviour over histories (TTL arithmetic, expiry)", "rate counter and penalty box values", "which backend is chosen"}
 	prog := c.Prog
 	ip := prog.Pkg("interpreter")
@@ -725,7 +725,38 @@ func checkCacheBranch(c *core.Ctx) {
 			}
 		}
 	}
-	c.Floor("sm.cache", 6)
+	// the expiry of a stored object is rewritten only under an explicit, positive TTL: the per-request obj.ttl starts at 0,
+	// so a rewrite that admits 0 expires the object on every hit that does not assign obj.ttl
+	for _, fn := range prog.ModuleFuncs("interpreter") {
+		if strings.Contains(fn.Pkg.Pkg.Path(), "/cache") {
+			continue
+		}
+		n := 0
+		for _, b := range fn.Blocks {
+			for _, in := range b.Instrs {
+				cal := core.StaticCallee(in)
+				if cal == nil || cal.Name() != "Update" || cal.Signature.Recv() == nil || core.NamedTypeName(derefType(cal.Signature.Recv().Type())) != "CacheItem" {
+					continue
+				}
+				n++
+				key := fmt.Sprintf("%s|CacheItem.Update#%d", core.FnName(fn), n)
+				path := accessPath(in.(ssa.CallInstruction).Common().Args[1])
+				ok := guardedCompare(fn, path, b, func(op token.Token, k int64, isFloat, edgeTrue, left bool) bool {
+					if isFloat {
+						return false
+					}
+					lo, _, excl, ok := intervalOf(op, k, edgeTrue, left)
+					return ok && excl == nil && lo >= 1
+				})
+				if ok {
+					c.Discharge("sm.cache", key, in.Pos(), "the stored object's expiry is rewritten only under a dominating test that the new TTL is positive")
+				} else {
+					c.Report("sm.cache", key, in.Pos(), fmt.Sprintf("%s rewrites the stored object's expiry from %s without a dominating test that the value is positive: the per-request obj.ttl starts at 0, so a hit that never assigns obj.ttl expires the object and the next request to the same URL misses", core.FnName(fn), path))
+				}
+			}
+		}
+	}
+	c.Floor("sm.cache", 7)
 }
 
 func checkProcessReport(c *core.Ctx) {
